@@ -6,8 +6,8 @@
     scanner of encoding/json (ported state by state; the Go package itself is
     trusted and tied by the correspondence run only). *)
 From Coq Require Import List NArith ZArith Bool.
-From Tongo Require Import Lib.Bits Lib.Res Model.BitString Model.JsonText Model.Json
-  Proofs.JsonTextP Proofs.JsonValidP Proofs.JsonP Proofs.JsonAddrP Proofs.JsonAcctP.
+From Tongo Require Import Lib.Bits Lib.Res Model.BitString Model.BitStringD Model.JsonText Model.Json
+  Proofs.BitStringR  Proofs.JsonTextP Proofs.JsonValidP Proofs.JsonP Proofs.JsonAddrP Proofs.JsonAcctP.
 Import ListNotations.
 Local Open Scope N_scope.
 
@@ -104,6 +104,34 @@ Theorem C20_written_bitstring_roundtrip :
   print_bitstring_bs (written_bs l free) = Ok (print_bitstring l)
   /\ parse_bitstring (print_bitstring l) = Ok l.
 Proof. exact written_bitstring_roundtrip. Qed.
+
+(* the BitString that ReadBits returns (what the TL-B decoder puts into
+   addr_extern / addr_var / bit-string fields): whatever source bits its last
+   byte keeps behind the length, the JSON text is that of the bits read and it
+   parses back to them (the design that rounds the length up instead of writing
+   the zero padding is refuted in Proofs/C20History.v) *)
+Theorem C20_read_bitstring_roundtrip :
+  forall n (s s' r : bs), Inv s -> read_bits_bs n s = (s', Ok r) ->
+  abs r = rd s n /\ print_bitstring_bs r = Ok (print_bitstring (rd s n))
+  /\ parse_bitstring (print_bitstring (rd s n)) = Ok (rd s n).
+Proof. exact read_bitstring_roundtrip. Qed.
+
+(* cells: every cell of the domain HAS a JSON form -- relative to the
+   serialiser being total on the domain (C01; the harness checks it at the
+   limits: depth 1023/1024 and 255..257, 65535..65537 distinct cells) *)
+Theorem C20_cell_has_json :
+  forall (cell : Type) (dom : cell -> Prop)
+         (ser : cell -> res (list N)) (deser : list N -> res (list cell)),
+  (forall c, dom c -> exists bs, ser c = Ok bs) ->
+  (forall c bs, ser c = Ok bs -> bytes_ok bs) ->
+  (forall c bs, ser c = Ok bs -> deser bs = Ok [c]) ->
+  forall c, dom c -> exists doc, print_cell ser c = Ok doc /\ parse_cell deser doc = Ok c.
+Proof.
+  intros cell dom ser deser Ht Hb Hrt c Hc. destruct (Ht c Hc) as [bs E].
+  exists (quote (print_hex bs)). assert (Hp : print_cell ser c = Ok (quote (print_hex bs))).
+  { unfold print_cell. rewrite E. reflexivity. }
+  split; [exact Hp|exact (cell_roundtrip ser deser Hb Hrt c _ Hp)].
+Qed.
 
 (* tlb.MsgAddress: every kind, with and without anycast.  Guards: the
    property's excluded case (variable address of 256 bits with an 8-bit
